@@ -196,6 +196,10 @@ def generate(tier, rng):
             b.add(p, v6=flags % 2 == 1, dport=rng.choice([3478, 65535, 0]))
     b.add(msg(magic=True))
     b.add(msg(magic=True, attrs=attr(3, b"\0\0\0\2")), dport=65535)
+    for tid in (bytes(16), bytes(8) + b"\x02ab\0\0\1\0\1", b"\0\1" + bytes(14), b"\xff" * 16, b"GET / HTTP/1.1\r\n", b"SSH-2.0-x\r\n\0\0\0\0\0",
+                b"\0\0\0\1" + bytes(12), bytes(4) + b"\0\0\0\2\0\1\x86\xa0" + bytes(4)):
+        b.add(msg(tid=tid), v6=len(b.udp) % 2 == 1)
+        b.add(msg(tid=tid, attrs=attr(3, b"\0\0\0\2")))
     # source addresses whose textual / canonical form differs from their 16 octets
     for src in ("::ffff:198.51.100.7", "::ffff:0.0.0.1", "::1.2.3.4", "::", "::1", "64:ff9b::c000:221", "fe80::1", "2002:c633:6407::1"):
         b.add(msg(tid=rnd_tid(rng)), v6=True, src=src)
